@@ -23,12 +23,36 @@ def inShape (shape : List Nat) (c : Coord) : Prop :=
 theorem bbox_contains (shape : List Nat) (sup : List Coord) (pad : Nat)
     (hs : ∀ c ∈ sup, inShape shape c) :
     ∀ c ∈ sup, inBox ((bboxNd shape sup pad).clip shape) c = true := by
-  sorry
+  intro c hc
+  obtain ⟨hcl, hcb⟩ := hs c hc
+  rw [inBox, List.all_eq_true]
+  intro x hx
+  rw [List.mem_iff_getElem] at hx
+  obtain ⟨i, hi, rfl⟩ := hx
+  rw [List.length_zip, clip_bbox_length] at hi
+  have hi1 : i < shape.length := by omega
+  have hi2 : i < c.length := by omega
+  rw [List.getElem_zip, clip_bbox_getElem shape sup pad i _ hi1]
+  have hb := hcb i hi1
+  have hmem : (c.getD i 0).toNat ∈ axisVals sup i := List.mem_map.2 ⟨c, hc, rfl⟩
+  have h1 := minOf_le_mem _ _ hmem
+  have h2 := mem_le_maxOf _ _ hmem
+  simp only [List.getD_eq_getElem?_getD, List.getElem?_eq_getElem hi1,
+    List.getElem?_eq_getElem hi2, Option.getD_some] at hb h1 h2
+  simp only [Bool.and_eq_true, decide_eq_true_eq]
+  omega
 
 /-- the clipped box lies inside the array -/
 theorem bbox_in_array (shape : List Nat) (sup : List Coord) (pad : Nat) :
     ∀ p ∈ ((bboxNd shape sup pad).clip shape).zip shape, p.1.2 ≤ p.2 := by
-  sorry
+  intro p hp
+  rw [List.mem_iff_getElem] at hp
+  obtain ⟨i, hi, rfl⟩ := hp
+  rw [List.length_zip, clip_bbox_length] at hi
+  have hi1 : i < shape.length := by omega
+  rw [List.getElem_zip, clip_bbox_getElem shape sup pad i _ hi1]
+  simp only
+  omega
 
 /-- the coordinates of a box inside an array, in raster order, are the raster coordinates of the
     box's own shape translated by the box origin -/
@@ -36,7 +60,7 @@ theorem allCoords_box (shape : List Nat) (b : Box) (hlen : b.length = shape.leng
     (hin : ∀ p ∈ b.zip shape, p.1.1 ≤ p.1.2 ∧ p.1.2 ≤ p.2) :
     (allCoords shape).filter (inBox b) =
       (allCoords (b.map (fun p => p.2 - p.1))).map (translate (b.map (fun p => (p.1 : Int)))) := by
-  sorry
+  exact allCoords_box_aux shape b hlen hin
 
 /-- crop lemma: cropping an array to a box that contains all of its foreground keeps exactly the
     foreground voxels, with coordinates translated by the box origin -/
@@ -45,7 +69,7 @@ theorem crop_fg (a : Arr) (b : Box) (hdata : a.data.length = shapeSize a.shape)
     (hin : ∀ p ∈ b.zip a.shape, p.1.1 ≤ p.1.2 ∧ p.1.2 ≤ p.2)
     (hfg : ∀ v ∈ a.fg, inBox b v.1 = true) :
     (a.crop b).fg.map (fun v => (translate (b.map (fun p => (p.1 : Int))) v.1, v.2)) = a.fg := by
-  sorry
+  exact crop_fg_aux a b hdata hlen hin hfg
 
 /-! ### (2) counts depend only on the multiset of foreground label pairs -/
 
@@ -56,13 +80,31 @@ def fgPairs (pred ref : Flat) : List (Lab × Lab) := (pred.zip ref).filter (fun 
     count over the foreground pairs -/
 theorem ovCount_fgPairs (pred ref : Flat) (r p : Lab) (h : r ≠ 0 ∨ p ≠ 0) :
     ovCount pred ref r p = ((fgPairs pred ref).filter (fun z => z.1 == p && z.2 == r)).length := by
-  sorry
+  rw [ovCount_eq_zip, fgPairs, List.filter_filter]
+  congr 1
+  apply List.filter_congr
+  intro z _
+  by_cases h1 : z.1 = p <;> by_cases h2 : z.2 = r <;> simp [h1, h2]
+  subst h1 h2
+  exact h.symm
 
 /-- instance sizes are counts over the foreground pairs -/
 theorem cnt_fgPairs (pred ref : Flat) (hlen : pred.length = ref.length) (l : Lab) (hl : l ≠ 0) :
     cnt pred l = ((fgPairs pred ref).filter (fun z => z.1 == l)).length ∧
     cnt ref l = ((fgPairs pred ref).filter (fun z => z.2 == l)).length := by
-  sorry
+  rw [cnt_eq_zip_fst pred ref hlen, cnt_eq_zip_snd pred ref hlen, fgPairs, List.filter_filter,
+    List.filter_filter]
+  constructor
+  · congr 1
+    apply List.filter_congr
+    intro z _
+    by_cases h1 : z.1 = l <;> simp [h1]
+    exact Or.inl hl
+  · congr 1
+    apply List.filter_congr
+    intro z _
+    by_cases h1 : z.2 = l <;> simp [h1]
+    exact Or.inr hl
 
 /-- two pairs of maps whose foreground label pairs are a rearrangement of each other (flips, axis
     permutations, translations, padding, cropping of shared empty margins all produce such pairs)
@@ -73,46 +115,107 @@ theorem counts_invariant (pred ref pred' ref' : Flat)
     (hperm : (fgPairs pred ref).Perm (fgPairs pred' ref')) (r p : Lab) (h : r ≠ 0 ∨ p ≠ 0) :
     ovCount pred ref r p = ovCount pred' ref' r p ∧
     (p ≠ 0 → cnt pred p = cnt pred' p) ∧ (r ≠ 0 → cnt ref r = cnt ref' r) := by
-  sorry
+  refine ⟨?_, ?_, ?_⟩
+  · rw [ovCount_fgPairs pred ref r p h, ovCount_fgPairs pred' ref' r p h]
+    exact (hperm.filter _).length_eq
+  · intro hp
+    rw [(cnt_fgPairs pred ref hlen p hp).1, (cnt_fgPairs pred' ref' hlen' p hp).1]
+    exact (hperm.filter _).length_eq
+  · intro hr
+    rw [(cnt_fgPairs pred ref hlen r hr).2, (cnt_fgPairs pred' ref' hlen' r hr).2]
+    exact (hperm.filter _).length_eq
 
 /-- IoU / Dice / RVD of a selected pair of instances are functions of these counts -/
 theorem iouSel_counts (pred ref : Flat) (hlen : pred.length = ref.length) (r p : Lab) (hr : r ≠ 0) (hp : p ≠ 0) :
     iouSel ref pred r [p] =
       (if cnt ref r + cnt pred p - ovCount pred ref r p = 0 then 0
        else (ovCount pred ref r p : Rat) / ((cnt ref r + cnt pred p - ovCount pred ref r p : Nat) : Rat)) := by
-  sorry
+  have hl : (selRef ref r).length = (selPred pred [p]).length := by
+    simp [selRef, selPred, hlen]
+  have hie := card_incl_excl _ _ hl
+  rw [card_selRef, card_selPred_single, cardInter_sel] at hie
+  have hu : cardUnion (selRef ref r) (selPred pred [p]) =
+      cnt ref r + cnt pred p - ovCount pred ref r p := by omega
+  simp only [iouSel, selectPair, iou, interCount_maskVals, unionCount_maskVals, cardInter_sel, hu,
+    beq_iff_eq]
 
 /-! ### (3) connectivity is transported by adjacency-preserving injective maps -/
 
 theorem reach_map {α β : Type} (adj : α → α → Bool) (adj' : β → β → Bool) (f : α → β) (V : List α)
     (hadj : ∀ a b, a ∈ V → b ∈ V → adj' (f a) (f b) = adj a b) (a b : α) (h : Reach adj V a b) :
     Reach adj' (V.map f) (f a) (f b) := by
-  sorry
+  induction h with
+  | refl ha => exact Reach.refl _ (List.mem_map_of_mem ha)
+  | step hab hc hbc ih =>
+    refine Reach.step ih (List.mem_map_of_mem hc) ?_
+    rw [hadj _ _ (reach_mem _ _ _ _ hab).2 hc]; exact hbc
 
 theorem reach_map_iff {α β : Type} (adj : α → α → Bool) (adj' : β → β → Bool) (f : α → β) (V : List α)
     (hinj : ∀ a b, a ∈ V → b ∈ V → f a = f b → a = b)
     (hadj : ∀ a b, a ∈ V → b ∈ V → adj' (f a) (f b) = adj a b) (a b : α) (ha : a ∈ V) (hb : b ∈ V) :
     Reach adj' (V.map f) (f a) (f b) ↔ Reach adj V a b := by
-  sorry
+  constructor
+  · intro h
+    have key : ∀ x y, Reach adj' (V.map f) x y → ∀ a ∈ V, f a = x → ∀ b ∈ V, f b = y →
+        Reach adj V a b := by
+      intro x y hxy
+      induction hxy with
+      | refl _ =>
+        intro a ha hax b hb hbx
+        have := hinj a b ha hb (hax.trans hbx.symm)
+        subst this
+        exact Reach.refl _ ha
+      | @step y' c hxy' hc hyc ih =>
+        intro a ha hax b hb hbc
+        obtain ⟨b', hb', hfb'⟩ := List.mem_map.1 (reach_mem _ _ _ _ hxy').2
+        have h1 := ih a ha hax b' hb' hfb'
+        refine Reach.step h1 hb ?_
+        rw [← hadj b' b hb' hb, hfb', hbc]; exact hyc
+    exact key _ _ h a ha rfl b hb rfl
+  · exact reach_map adj adj' f V hadj a b
 
 /-- grid isometries preserve both adjacencies -/
 theorem isometry_faceAdj (n : Nat) (f : Coord → Coord) (hf : GridIsometry f n) (a b : Coord)
     (ha : a.length = n) (hb : b.length = n) : faceAdj (f a) (f b) = faceAdj a b := by
-  sorry
+  rw [faceAdj_eq_sqDist, faceAdj_eq_sqDist, hf.dist a b ha hb, hf.len a ha, hf.len b hb, ha, hb]
 
 /-- full (8/26) adjacency is "squared distance between 1 and the dimension with every axis
     differing by at most 1"; it is preserved by translations, flips and axis swaps -/
 theorem translate_fullAdj (t a b : Coord) (ha : a.length = t.length) (hb : b.length = t.length) :
     fullAdj (translate t a) (translate t b) = fullAdj a b := by
-  sorry
+  refine fullAdj_transport a b _ _ id (ha.trans hb.symm) ?_ ?_ (fun _ h => h) (fun _ _ => rfl) ?_
+  · simp [translate, ha]
+  · simp [translate, ha, hb]
+  · intro l hl
+    rw [translate_getD t a ha l hl, translate_getD t b hb l (by omega)]
+    simp only [id]
+    omega
 
 theorem flipAxis_fullAdj (k : Nat) (m : Int) (a b : Coord) (h : a.length = b.length) :
     fullAdj (flipAxis k m a) (flipAxis k m b) = fullAdj a b := by
-  sorry
+  refine fullAdj_transport a b _ _ id h ?_ ?_ (fun _ h => h) (fun _ _ => rfl) ?_
+  · simp [flipAxis]
+  · simp [flipAxis, h]
+  · intro l hl
+    rw [flipAxis_getD k m a l hl, flipAxis_getD k m b l (by omega)]
+    simp only [id]
+    split
+    · subst_vars; omega
+    · rfl
 
 theorem swapAxes_fullAdj (i j : Nat) (a b : Coord) (h : a.length = b.length) (hi : i < a.length) (hj : j < a.length) :
     fullAdj (swapAxes i j a) (swapAxes i j b) = fullAdj a b := by
-  sorry
+  refine fullAdj_transport a b _ _ (swapIdx i j) h ?_ ?_ ?_ ?_ ?_
+  · simp [swapAxes]
+  · simp [swapAxes, h]
+  · intro l hl; unfold swapIdx; split
+    · exact hi
+    · split
+      · exact hj
+      · exact hl
+  · intro l hl; unfold swapIdx; grind
+  · intro l hl
+    rw [swapAxes_getD i j a hi hj l hl, swapAxes_getD i j b (h ▸ hi) (h ▸ hj) l (h ▸ hl)]
 
 /-- non-vacuity: bounding box of two voxels in a 5x6 array with the code's padding 2 -/
 example : (bboxNd [5, 6] [[1, 2], [3, 2]] 2).clip [5, 6] = [(0, 5), (0, 5)] := by decide
